@@ -37,7 +37,7 @@ from mc.core.report import digest
 
 logging.getLogger('falcon').setLevel(100)
 
-OPS = ['accept', 'accept_sub', 'accept_hdr', 'close', 'close3001', 'close999', 'close1005', 'send_text', 'send_data',
+OPS = ['accept', 'accept_sub', 'accept_hdr', 'close', 'close3001', 'close999', 'close1005', 'send_text', 'send_data', 'send_data_buf',
        'send_media', 'send_text_bytes', 'recv_text', 'recv_data', 'recv_media', 'raise403', 'raise_status', 'raise_value']
 CORE_OPS = ['accept', 'close', 'close999', 'send_text', 'send_media', 'recv_text', 'recv_data', 'raise403', 'raise_value']
 TERMINAL = {'raise403', 'raise_status', 'raise_value'}
@@ -206,7 +206,7 @@ class Model:
             ev = {'type': 'websocket.send'}
             if name == 'send_text':
                 ev['text'] = 'hello'
-            elif name == 'send_data':
+            elif name in ('send_data', 'send_data_buf'):
                 ev['bytes'] = b'\x00\xff'
             else:
                 ev['text'] = MEDIA_JSON
@@ -331,6 +331,12 @@ async def run_script(ws, holder):
                 r = await ws.send_text('hello')
             elif name == 'send_data':
                 r = await ws.send_data(b'\x00\xff')
+            elif name == 'send_data_buf':
+                # a mutable buffer that the application re-uses right after the call returned
+                buf = bytearray(b'\x00\xff')
+                r = await ws.send_data(buf)
+                buf[0] = 0x41
+                buf[1] = 0x42
             elif name == 'send_media':
                 r = await ws.send_media(MEDIA_OBJ)
             elif name == 'send_text_bytes':
